@@ -203,7 +203,8 @@ DoClaim(s, e) ==
       IN
       IF ~c.transfer THEN
         IF c.to \in s.blocked \/ ~CanPay(s.bal, MOD, c.amt) THEN FailW(s, "escrow_short")
-        ELSE Done(closed([s EXCEPT !.bal = Move(s.bal, MOD, c.to, c.amt)]))
+        ELSE [Done(closed([s EXCEPT !.bal = Move(s.bal, MOD, c.to, c.amt)]))
+                EXCEPT !.why = IF c.to = MOD THEN "to_escrow" ELSE ""]
       ELSE
         LET d == OnlyDenom(c.amt)
             a == c.amt[d] IN
@@ -588,6 +589,7 @@ AP(limit, timeLimited, period, tbl, minAmt, maxAmt, fee) ==
    minLock |-> 1, maxLock |-> 2]
 
 (* parameter sets selectable from the configs *)
+NoParams == <<>>
 ParamsA == ("htltone" :> AP(4, FALSE, 0, 0, 1, 3, 0)) @@ ("htlttwo" :> AP(5, TRUE, 2, 3, 1, 3, 1))
 ParamsB == ("htltone" :> AP(2, FALSE, 0, 0, 1, 3, 0)) @@ ("htlttwo" :> AP(5, TRUE, 2, 3, 1, 3, 1))
 ParamsC == ("htlttwo" :> AP(5, TRUE, 3, 2, 1, 3, 1))                     \* asset one removed
@@ -597,8 +599,8 @@ ParamsOne == ("htltone" :> AP(4, FALSE, 0, 0, 1, 3, 0))
 ParamsTwo == ("htlttwo" :> AP(5, TRUE, 2, 3, 1, 3, 1))
 ParamAltsAll == {ParamsA, ParamsB, ParamsC, ParamsD, ParamsBad}
 ParamAltsFew == {ParamsB, ParamsC}
+ParamAltsOne == {("htltone" :> AP(2, FALSE, 0, 0, 1, 3, 0)), NoParams}
 ParamAltsTwo == {ParamsTwo, ("htlttwo" :> AP(3, TRUE, 3, 2, 1, 3, 1)), <<>>}
-NoParams == <<>>
 
 TP(id, sender, to, amt, sec, lts, ts, transfer) ==
   [id |-> id, sender |-> sender, to |-> to, amt |-> amt, sec |-> sec,
@@ -622,6 +624,7 @@ TplPlainAsset == TP("c14", "u1", "u2", ("htltone" :> 1), "s2", T0, T0, FALSE) \*
 
 TemplatesPlain == {TplMulti, TplSelf, TplOtherTs, TplSame}
 TemplatesAssets == {TplIn1, TplOut1, TplIn2, TplIn2b, TplPlainAsset}
+TemplatesOne == {TplIn1, TplOut1, TplPlainAsset}
 TemplatesTwo == {TplIn2, TplIn2b, TplOut2}
 TemplatesGen == {TplMulti, TplSelf, TplOtherTs, TplSame, TplBlocked, TplIn1, TplIn1b, TplOut1,
                  TplIn2, TplIn2b, TplOut2, TplBadTs, TplNoDep, TplPlainAsset}
@@ -676,7 +679,7 @@ Spec == Init /\ [][Next]_vars
 
 (* Generator: TLC as a source of behaviours to replay on the real code *)
 Rejects(h) == Cardinality({i \in DOMAIN h : ~h[i].ok})
-GenNext == Next /\ (ev'.ok \/ Rejects(hist) < 3)
+GenNext == Next /\ (ev'.ok \/ Rejects(hist) < 5)
 GenSpec == Init /\ [][GenNext]_vars
 GenDepth == atoi(IOEnv.GEN_DEPTH)
 GenConstraint ==
